@@ -251,3 +251,59 @@ SPEC["C20"] = {
         ("C20_register_wf", "RegisterFacts.register_wf", "registration preserves table well-formedness (C07's invariant applies)"),
     ],
 }
+
+FACTORY_IMPORTS = """From Coq Require Import List NArith Bool Arith.
+From SV Require Import Bytes Ops OpsFacts.
+Import ListNotations.
+Local Open Scope nat_scope.
+"""
+
+SPEC["C12"] = {
+    "header": """C12 — filter-set editing operations behave like an ordered, uniquely named list.
+
+   Model: factory/Ops.v — addfilter, updatefilter, replacefilter, removefilter, enablefilter,
+   disablefilter, movefilter, getfilter, is_filter_disabled of sievelib.factory.FiltersSet, with
+   filter contents abstracted to "a plain command (identified by a number)" or "the if-false wrapper
+   around contents", which is all these operations inspect.  Reference: [spec_step] over a list of
+   entries (name, content id, enabled, description).  Proofs: factory/OpsFacts.v.
+   The model is tied to factory.py by the correspondence check (every operation's return value /
+   exception and the whole observable state after every step, on exhaustive and random operation
+   sequences); the reference list is compared with the implementation directly as well.""",
+    "imports": FACTORY_IMPORTS,
+    "theorems": [
+        ("C12_representation", "OpsFacts.abs_iff",
+         "a concrete set represents the reference list sp exactly when it is the image of sp: enabled filters hold their plain content, disabled ones hold it wrapped once in if-false, flags agree"),
+        ("C12_step_refines", "OpsFacts.step_refines",
+         "every operation on a representable set returns what the reference returns and yields the representation of the reference result"),
+        ("C12_history_refines", "OpsFacts.history_refines",
+         "all histories from the empty set (no length bound): every return value agrees and the final set represents the reference list"),
+        ("C12_observers", "OpsFacts.observers_agree",
+         "in every representable state: is_filter_disabled = not enabled (True for unknown names), getfilter returns the filter's own plain content whether or not it is disabled, and enabled = not wrapped for every filter"),
+        ("C12_names_unique", "OpsFacts.spec_step_nodup", "names stay unique under every operation"),
+        ("C12_history_names_unique", "OpsFacts.history_nodup", "... hence in every reachable state"),
+        ("C12_update_in_place", "OpsFacts.s_update_in_place",
+         "update / replace / enable / disable rewrite exactly the first entry of that name, at its position; everything else is untouched"),
+        ("C12_move_up", "OpsFacts.s_move_up_swap", "moving up swaps the filter with its predecessor, nothing else moves"),
+        ("C12_move_down", "OpsFacts.s_move_down_swap", "moving down swaps the filter with its successor, nothing else moves"),
+        ("C12_unknown_names", "OpsFacts.unknown_name_noop", "operations on unknown names return False and change nothing"),
+        ("raw", """(* the repaired defect stays repaired in the model: disabling twice then enabling once gives an enabled,
+   unwrapped filter (F4 of DESIGN.md 1.1) *)
+Example C12_disable_twice_enable :
+  let a := [97%N] in
+  let s := snd (run_trace [] [FAdd a 1; FDisable a; FDisable a; FEnable a]) in
+  s = [mkF a (Plain 1) true None] /\ op_is_disabled a s = RBool false /\ op_get a s = RContent (Plain 1).
+Proof. vm_compute. repeat split. Qed.
+
+(* non-vacuity: collisions, repeats and boundary moves in one history *)
+Example C12_history_example :
+  let a := [97%N] in let b := [98%N] in
+  let ops := [FAdd a 1; FAdd b 2; FAdd a 3; FDisable a; FDisable a; FUpdate a a 4; FMove a true; FMove b true;
+              FEnable a; FEnable a; FReplace b 5 (Some a) None; FRemove b; FRemove b] in
+  fst (run_trace [] ops) =
+    [RNone; RNone; RAlreadyExists; RBool true; RBool true; RBool true; RBool false; RBool true;
+     RBool true; RBool false; RAlreadyExists; RBool true; RBool false]
+  /\ abs (snd (run_trace [] ops)) = Some [mkE a 4 true None].
+Proof. vm_compute. split; reflexivity. Qed.
+"""),
+    ],
+}
